@@ -9,7 +9,7 @@ from .values import *  # noqa
 from .ops import PathInfeasible, zbool
 from . import contracts as C
 from .symexec import Exec, Env, ReturnEx, RaiseEx, PathEnd, BreakEx, ContinueEx, Obligation
-from . import loops, calls, methods  # noqa: F401  (mixins)
+from . import loops, calls, methods, heap  # noqa: F401  (mixins)
 from .loops import eval_clauses
 from .extract import find_function, strip_doc
 from . import solve
@@ -75,18 +75,28 @@ def run_path(spec, fnode, script):
   for p, s in list(spec.params) + list(spec.free):
     v = ex.fresh(s, p)
     old_env.set(p, v)
-    if s.mutable and p in spec.assigns:
+    if p in spec.assigns:
       env.set(p, ex.new_box(v))
     else:
       env.set(p, v)
+  if getattr(spec, 'yields', None) is not None:
+    ys = SeqOf(spec.yields)
+    ex.store['$out'] = SV(ys, ys.z3().mk(0, z3.K(z3.IntSort(), spec.yields.const('dy'))))
+    env.set('_out', Box('$out'))
   ex.init_heap(env, old_env) if hasattr(ex, 'init_heap') else None
   for g in eval_clauses(ex, spec.requires, env, {}):
     ex.assume(g)
   if spec.decreases:
     ex._entry_measure = ex.coerce(ex.eval_spec_value(spec.decreases, env), INT).t
   # condition under which each declared exception is due, over the entry state
-  raise_conds = {exn: ex.eval_spec(c, env) for exn, c in spec.raises.items()}
-  ex.old_env, ex.old_store = old_env, dict(ex.store)
+  def raise_conds_now():
+    # `raises` conditions speak about the entry values of the parameters (old_env) and the
+    # current heap; old(...)/acq(...) reach the entry / last-acquire heap
+    e = Env(old_env)
+    return {exn: ex.eval_spec(c, e) for exn, c in spec.raises.items()}
+  ex.old_env, ex.old_store = old_env, ex.store.copy()
+  ex.old_heap = dict(ex.heap)
+  ex.heap_written = set()
   ex.param_terms = {p: old_env.lookup(p) for p, _ in list(spec.params) + list(spec.free)}
   outcome = None
   try:
@@ -101,7 +111,7 @@ def run_path(spec, fnode, script):
       raise OutsideSubset('break/continue outside loop')
     if outcome[0] == 'ret':
       # no declared exception was due
-      for exn, c in raise_conds.items():
+      for exn, c in raise_conds_now().items():
         ex.oblige(z3.Not(c), f'raises-if[{exn}]')
       res = outcome[1]
       penv = Env(env)
@@ -124,6 +134,7 @@ def run_path(spec, fnode, script):
     else:
       exc = outcome[1]
       name = exc.tag.name
+      raise_conds = raise_conds_now() if name in spec.raises else {}
       if name in raise_conds:
         ex.oblige(raise_conds[name], f'raises-only-if[{name}]')
         ex.post_raise_frame(env) if hasattr(ex, 'post_raise_frame') else None
